@@ -109,12 +109,19 @@ enum T {
     Seq(Box<T>, u32),
     Arr(Box<T>, u32),
     Struct(ExtensibilityKind, Vec<M>),
-    Enum(P, Vec<i32>),
+    /// holder, literals, extensibility of the enumeration type (no influence on the encoding)
+    Enum(P, Vec<i32>, ExtensibilityKind),
+    /// wide string (STRING16); values are lists of UTF-16 code units
+    WStr,
+    /// extensibility, discriminator type, branches
+    Union(ExtensibilityKind, P, Vec<B>),
 }
+#[derive(Clone, Debug)]
+struct B { id: u32, labels: Vec<i32>, dflt: bool, t: T }
 #[derive(Clone, Debug)]
 struct M { id: u32, opt: bool, key: bool, mu: bool, t: T }
 #[derive(Clone, Debug)]
-enum V { N(u64), S(Vec<u8>), L(Vec<V>), R(Vec<Option<V>>) }
+enum V { N(u64), S(Vec<u8>), L(Vec<V>), R(Vec<Option<V>>), /** union: discriminator, (branch id, value) */ U(u64, Option<(u32, Box<V>)>) }
 
 struct Px<'a> { s: &'a [u8], i: usize }
 impl<'a> Px<'a> {
@@ -145,6 +152,36 @@ impl<'a> Px<'a> {
     fn ty(&mut self) -> Option<T> {
         match self.peek()? {
             b's' => { self.i += 1; Some(T::Str) }
+            b'w' => { self.i += 1; Some(T::WStr) }
+            b'U' => {
+                // U<F|A|M><disc prim>{<id>[d][<label>,..]:<ty>,...}
+                self.i += 1;
+                let ext = match self.peek()? { b'F' => ExtensibilityKind::Final, b'A' => ExtensibilityKind::Appendable, b'M' => ExtensibilityKind::Mutable, _ => return None };
+                self.i += 1;
+                let disc = self.prim()?;
+                self.eat(b'{')?;
+                let mut bs = vec![];
+                if self.eat(b'}').is_some() { return Some(T::Union(ext, disc, bs)); }
+                loop {
+                    let id = self.num()? as u32;
+                    let dflt = self.eat(b'd').is_some();
+                    let mut labels = vec![];
+                    if self.eat(b'[').is_some() && self.eat(b']').is_none() {
+                        loop {
+                            labels.push(self.snum()? as i32);
+                            if self.eat(b',').is_some() { continue; }
+                            self.eat(b']')?;
+                            break;
+                        }
+                    }
+                    self.eat(b':')?;
+                    let t = self.ty()?;
+                    bs.push(B { id, labels, dflt, t });
+                    if self.eat(b',').is_some() { continue; }
+                    self.eat(b'}')?;
+                    return Some(T::Union(ext, disc, bs));
+                }
+            }
             b'Q' => {
                 self.i += 1;
                 let bound = if self.peek() == Some(b'(') { 0 } else { self.num()? as u32 };
@@ -183,14 +220,16 @@ impl<'a> Px<'a> {
                 self.i += 1;
                 let h = self.prim()?;
                 if !matches!(h, P::I8 | P::I16 | P::I32) { return None; }
+                let ext = if self.eat(b'a').is_some() { ExtensibilityKind::Appendable }
+                          else if self.eat(b'm').is_some() { ExtensibilityKind::Mutable } else { ExtensibilityKind::Final };
                 self.eat(b'[')?;
                 let mut ls = vec![];
-                if self.eat(b']').is_some() { return Some(T::Enum(h, ls)); }
+                if self.eat(b']').is_some() { return Some(T::Enum(h, ls, ext)); }
                 loop {
                     ls.push(self.snum()? as i32);
                     if self.eat(b',').is_some() { continue; }
                     self.eat(b']')?;
-                    return Some(T::Enum(h, ls));
+                    return Some(T::Enum(h, ls, ext));
                 }
             }
             _ => self.prim().map(T::Prim),
@@ -216,6 +255,18 @@ impl<'a> Px<'a> {
                     self.eat(b']')?;
                     return Some(V::L(vs));
                 }
+            }
+            b'<' => {
+                // union value: <disc> or <disc,branch id:value>
+                self.i += 1;
+                let d = self.num()?;
+                if self.eat(b'>').is_some() { return Some(V::U(d, None)); }
+                self.eat(b',')?;
+                let id = self.num()? as u32;
+                self.eat(b':')?;
+                let v = self.val()?;
+                self.eat(b'>')?;
+                Some(V::U(d, Some((id, Box::new(v)))))
             }
             b'{' => {
                 self.i += 1;
@@ -259,6 +310,22 @@ fn build_ty(t: &T) -> DynamicType<'static> {
     match t {
         T::Prim(p) => DynamicTypeBuilderFactory::get_primitive_type(kind_of(*p)),
         T::Str => DynamicTypeBuilderFactory::create_string_type(u32::MAX).build(),
+        T::WStr => DynamicTypeBuilderFactory::create_wstring_type(u32::MAX).build(),
+        T::Union(ext, disc, bs) => {
+            // as `derive(TypeSupport)` builds a union: member 0 is the discriminator (id 0, must-understand)
+            let dt = DynamicTypeBuilderFactory::get_primitive_type(kind_of(*disc));
+            let mut b = DynamicTypeBuilderFactory::create_type(descriptor(TypeKind::UNION, *ext, Some(dt)));
+            let mut dm = member("discriminator", 0, 0, dt, &[], None);
+            dm.is_must_understand = true;
+            b.add_member(dm).unwrap();
+            for (i, br) in bs.iter().enumerate() {
+                let name: &'static str = format!("m{}", br.id).leak();
+                let mut md = member(name, br.id, i as u32 + 1, build_ty(&br.t), br.labels.clone().leak(), None);
+                md.is_default_label = br.dflt;
+                b.add_member(md).unwrap();
+            }
+            b.build()
+        }
         T::Seq(e, b) => DynamicTypeBuilderFactory::create_sequence_type(build_ty(e), if *b == 0 { u32::MAX } else { *b }).build(),
         T::Arr(e, n) => DynamicTypeBuilderFactory::create_array_type(build_ty(e), vec![*n].leak()).build(),
         T::Struct(ext, ms) => {
@@ -269,9 +336,9 @@ fn build_ty(t: &T) -> DynamicType<'static> {
             }
             b.build()
         }
-        T::Enum(h, labels) => {
+        T::Enum(h, labels, ext) => {
             let holder = DynamicTypeBuilderFactory::get_primitive_type(kind_of(*h));
-            let mut b = DynamicTypeBuilderFactory::create_type(descriptor(TypeKind::ENUM, ExtensibilityKind::Final, Some(holder)));
+            let mut b = DynamicTypeBuilderFactory::create_type(descriptor(TypeKind::ENUM, *ext, Some(holder)));
             for (i, l) in labels.iter().enumerate() {
                 let name: &'static str = format!("L{}", i).leak();
                 b.add_member(member(name, i as u32, i as u32, holder, vec![*l].leak(), None)).unwrap();
@@ -325,23 +392,39 @@ fn build_complex(t: &T, v: &V) -> Option<DynamicData<'static>> {
                 if let Some(f) = f { d.set_value(m.id, build_storage(&m.t, f)?); }
             }
         }
-        (T::Enum(h, _), V::N(n)) => d.set_value(0, prim_storage(*h, *n)?),
+        (T::Enum(h, _, _), V::N(n)) => d.set_value(0, prim_storage(*h, *n)?),
+        (T::Union(_, disc, bs), V::U(dv, br)) => {
+            d.set_value(0, prim_storage(*disc, *dv)?);
+            if let Some((id, v)) = br {
+                let b = bs.iter().find(|b| b.id == *id)?;
+                if *id == 0 { return None; }
+                d.set_value(*id, build_storage(&b.t, v)?);
+            }
+        }
         _ => return None,
     }
     Some(d)
 }
+/// a wide string from UTF-16 code units (unpaired surrogates are not values of `String`: bad-op)
+fn wstr_of(us: &[V]) -> Option<String> {
+    let units = us.iter().map(|v| if let V::N(n) = v { u16::try_from(*n).ok() } else { None }).collect::<Option<Vec<u16>>>()?;
+    String::from_utf16(&units).ok()
+}
+fn show_wstr(s: &str) -> String { join('[', s.encode_utf16().map(|u| u.to_string()), ']') }
 fn build_storage(t: &T, v: &V) -> Option<DataStorage> {
     match (t, v) {
         (T::Prim(p), V::N(n)) => prim_storage(*p, *n),
         (T::Str, V::S(b)) => Some(DataStorage::String(String::from_utf8(b.clone()).ok()?)),
+        (T::WStr, V::L(us)) => Some(DataStorage::String(wstr_of(us)?)),
         (T::Seq(e, _), V::L(vs)) | (T::Arr(e, _), V::L(vs)) => match &**e {
             T::Prim(p) => prim_seq_storage(*p, vs),
             T::Str => Some(DataStorage::SequenceString(vs.iter().map(|v| if let V::S(b) = v { String::from_utf8(b.clone()).ok() } else { None }).collect::<Option<Vec<_>>>()?)),
-            T::Struct(..) | T::Enum(..) => Some(DataStorage::SequenceComplexValue(vs.iter().map(|v| build_complex(e, v)).collect::<Option<Vec<_>>>()?)),
+            T::WStr => Some(DataStorage::SequenceString(vs.iter().map(|v| if let V::L(us) = v { wstr_of(us) } else { None }).collect::<Option<Vec<_>>>()?)),
+            T::Struct(..) | T::Enum(..) | T::Union(..) => Some(DataStorage::SequenceComplexValue(vs.iter().map(|v| build_complex(e, v)).collect::<Option<Vec<_>>>()?)),
             // the dynamic data model has no storage for collections of collections
             T::Seq(..) | T::Arr(..) => None,
         },
-        (T::Struct(..), V::R(_)) | (T::Enum(..), V::N(_)) => Some(DataStorage::ComplexValue(build_complex(t, v)?)),
+        (T::Struct(..), V::R(_)) | (T::Enum(..), V::N(_)) | (T::Union(..), V::U(..)) => Some(DataStorage::ComplexValue(build_complex(t, v)?)),
         _ => None,
     }
 }
@@ -362,6 +445,13 @@ fn show_complex(t: &T, d: &DynamicData) -> String {
     match t {
         T::Struct(_, ms) => join('{', ms.iter().map(|m| match d.get_value(m.id) { Ok(s) => show_storage(&m.t, s), Err(_) => "_".to_string() }), '}'),
         T::Enum(..) => match d.get_value(0) { Ok(s) => show_prim(s).map_or("?".into(), |n| n.to_string()), Err(_) => "_".into() },
+        T::Union(_, _, bs) => {
+            let disc = match d.get_value(0) { Ok(s) => show_prim(s).map_or("?".into(), |n| n.to_string()), Err(_) => "_".into() };
+            match bs.iter().find_map(|b| d.get_value(b.id).ok().map(|s| (b, s))) {
+                Some((b, s)) => format!("<{},{}:{}>", disc, b.id, show_storage(&b.t, s)),
+                None => format!("<{}>", disc),
+            }
+        }
         _ => "?".into(),
     }
 }
@@ -370,7 +460,9 @@ fn show_storage(t: &T, s: &DataStorage) -> String {
     match (t, s) {
         (T::Prim(_), s) => show_prim(s).map_or("?".into(), |n| n.to_string()),
         (T::Str, DataStorage::String(x)) => show_str(x),
-        (T::Struct(..), DataStorage::ComplexValue(d)) | (T::Enum(..), DataStorage::ComplexValue(d)) => show_complex(t, d),
+        (T::WStr, DataStorage::String(x)) => show_wstr(x),
+        (T::Struct(..), DataStorage::ComplexValue(d)) | (T::Enum(..), DataStorage::ComplexValue(d))
+        | (T::Union(..), DataStorage::ComplexValue(d)) => show_complex(t, d),
         (T::Seq(e, _), s) | (T::Arr(e, _), s) => match s {
             DataStorage::SequenceBoolean(v) => seq!(v, |x| (*x as u64).to_string()),
             DataStorage::SequenceUInt8(v) => seq!(v, |x| x.to_string()),
@@ -384,7 +476,7 @@ fn show_storage(t: &T, s: &DataStorage) -> String {
             DataStorage::SequenceInt64(v) => seq!(v, |x| (*x as u64).to_string()),
             DataStorage::SequenceUInt64(v) => seq!(v, |x| x.to_string()),
             DataStorage::SequenceFloat64(v) => seq!(v, |x| x.to_bits().to_string()),
-            DataStorage::SequenceString(v) => seq!(v, |x| show_str(x)),
+            DataStorage::SequenceString(v) => if matches!(**e, T::WStr) { seq!(v, |x| show_wstr(x)) } else { seq!(v, |x| show_str(x)) },
             DataStorage::SequenceComplexValue(v) => seq!(v, |x| show_complex(e, x)),
             _ => "?".into(),
         },
@@ -422,6 +514,7 @@ fn ty_ok(t: &T) -> bool {
     match t {
         T::Seq(e, _) | T::Arr(e, _) => !matches!(**e, T::Seq(..) | T::Arr(..)) && ty_ok(e),
         T::Struct(_, ms) => ms.iter().all(|m| ty_ok(&m.t)),
+        T::Union(_, _, bs) => bs.iter().all(|b| b.id != 0 && ty_ok(&b.t)),
         _ => true,
     }
 }
